@@ -392,7 +392,17 @@ func positions() []*position {
 	p.expect = expTemplate
 	ident("logql.ident.label_format.direct", `§`, func(h string) *request { return &request{direct: directLabelFormatName(h)} }, reLogQLIdent)
 
+	// label NAMES written as quoted strings (UTF-8 / dotted names): today's LogQL grammar refuses them (counted as
+	// rejected by the front end); wherever a front end accepts one, the name is a user string like any value
+	for _, q := range []struct{ n, t string }{
+		{"labelfilter.series", `{a="b"} | §="x"`}, {"labelfilter.map", `{a="b"} | json y="y" | §="x"`}, {"labelfilter.num", `{a="b"} | json y="y" | § > 5`},
+		{"labelfilter.re", `{a="b"} | logfmt | §=~"x.*"`}, {"stream", `{§="x"}`}, {"by", `sum by (§) (rate({a="b"}[10s]))`}, {"drop", `{a="b"} | drop §`},
+	} {
+		str("logql.quoted-name."+q.n, formsLogQL, tpl(q.t, lokiRange)).restricted = true
+	}
 	// ---------------- PromQL ----------------
+	str("promql.quoted-name.label", formsProm, tpl(`{__name__="up", §="x"}`, promRange)).restricted = true
+	str("promql.quoted-name.by", formsProm, tpl(`sum by (§) (up{a="x"})`, promRange)).restricted = true
 	for _, op := range []struct{ n, op string }{{"eq", "="}, {"ne", "!="}, {"re", "=~"}, {"nre", "!~"}} {
 		p := str("promql.matcher."+op.n, formsProm, tpl(`up{job`+op.op+`§}`, promRange))
 		if op.n == "re" || op.n == "nre" {
